@@ -25,6 +25,7 @@ type Family struct {
 	Requests [][]V
 	Ctx      *casbin.EnforceContext
 	Opts     CaseOpts
+	Setup    []EOp // calls made right after construction (matching functions)
 }
 
 func aclEq() *Ex { return And(Eq(RTok(0), PTok(0)), Eq(RTok(1), PTok(1)), Eq(RTok(2), PTok(2))) }
@@ -103,6 +104,24 @@ func c01Families() []Family {
 		Rules: map[string][][]string{"p": {{"admin", "d1", "data1", "read"}, {"admin", "d2", "data2", "read"}, {"alice", "d2", "data1", "read"}, {"bob", "d1", "data2", "read"}}},
 		Links: map[string][][]string{"g": {{"alice", "admin", "d1"}, {"bob", "admin", "d2"}, {"alice", "admin", "d2"}, {"bob", "alice", "d1"}}},
 		Requests: domReqs})
+	// 5b domains with a role-name matching function (no domain matching function): a pattern subject in a
+	// policy rule matches by name in every domain, whether or not the domain has grouping rules of its own
+	var patReqs [][]V
+	for _, sb := range []string{"user_1", "user_7", "bob", "admin"} {
+		for _, d := range []string{"d1", "d2"} {
+			for _, o := range []string{"data1", "data2"} {
+				patReqs = append(patReqs, []V{VS(sb), VS(d), VS(o), VS("read")})
+			}
+		}
+	}
+	fs = append(fs, Family{Name: "rbac-domains-name-patterns",
+		MS: NewMSpec().AddR("r", "sub", "dom", "obj", "act").AddP("p", "sub", "dom", "obj", "act").AddG("g", 3).AddE("e", effAllow).
+			AddM("m", "r", "p", And(G3("g", RTok(0), PTok(0), RTok(1)), Eq(RTok(1), PTok(1)), Eq(RTok(2), PTok(2)), Eq(RTok(3), PTok(3)))),
+		Rules:    map[string][][]string{"p": {{"user_*", "d2", "data2", "read"}, {"admin", "d1", "data1", "read"}, {"user_*", "d1", "data2", "read"}, {"bob", "d2", "data1", "read"}}},
+		Links:    map[string][][]string{"g": {{"user_1", "admin", "d1"}, {"bob", "user_7", "d1"}, {"bob", "admin", "d2"}}},
+		Requests: patReqs,
+		Opts:     CaseOpts{MatchFns: []string{"keyMatch"}, OraUniverse: []string{"user_1", "user_7", "bob", "admin", "user_*"}},
+		Setup:    []EOp{{Kind: "addmf", PType: "g", What: "keyMatch"}}})
 	// 6 deny-override RBAC
 	eftRules := [][]string{{"alice", "data1", "read", "allow"}, {"admin", "data1", "read", "deny"}, {"bob", "data2", "write", "allow"}, {"admin", "data2", "write", "other"}, {"alice", "data1", "read", "deny"}}
 	for _, ek := range []struct{ n, e string }{{"deny-override", effDeny}, {"allow-and-deny", effAllowDen}, {"priority", effPriority}, {"allow-override-with-eft-column", effAllow}} {
@@ -232,6 +251,9 @@ func runFamilyCase(c *Ctx, f Family, pol map[string][][]string, links map[string
 	if s == nil {
 		return
 	}
+	for _, op := range f.Setup {
+		s.Do(c, op)
+	}
 	for _, gt := range f.MS.GTypes {
 		if len(links[gt]) > 0 {
 			s.Do(c, EOp{Kind: "adds", Sec: "g", PType: gt, Ex: true, Rules: links[gt]})
@@ -304,7 +326,7 @@ func runC01(c *Ctx) {
 		maxRules, maxLinks = 3, 3
 	}
 	c.Exhaustive = true
-	c.Rule = fmt.Sprintf("15 model families (ACL, superuser, RBAC, RBAC over names with coinciding concatenations, resource roles, domains, deny-override, allow-and-deny, priority, ABAC attributes, eval() rules, keyMatch/regexMatch, in-operator, EnforceContext with two policy types, negation) x all policies of <= %d rules (ordered sequences for priority) x all grouping sets of <= %d links over the family's universe x all requests of its universe (bounded-exhaustive), plus seeded random models/matchers/graphs; reference = Lean specEnforce (no govaluate, effector or role manager); non-trivial = a case with both an allowed and a denied request; distinct = (family, policy, links)", maxRules, maxLinks)
+	c.Rule = fmt.Sprintf("16 model families (ACL, superuser, RBAC, RBAC over names with coinciding concatenations, resource roles, domains, domains with a role-name matching function, deny-override, allow-and-deny, priority, ABAC attributes, eval() rules, keyMatch/regexMatch, in-operator, EnforceContext with two policy types, negation) x all policies of <= %d rules (ordered sequences for priority) x all grouping sets of <= %d links over the family's universe x all requests of its universe (bounded-exhaustive), plus seeded random models/matchers/graphs; reference = Lean specEnforce (no govaluate, effector or role manager); non-trivial = a case with both an allowed and a denied request; distinct = (family, policy, links)", maxRules, maxLinks)
 	for _, f := range c01Families() {
 		// policies: per ptype subsets (ordered sequences for the priority effect)
 		var polChoices []map[string][][]string
